@@ -2,7 +2,7 @@
    Only statements; every proof is `exact <lemma>`.  Print Assumptions below each. *)
 From Coq Require Import ZArith List Bool.
 From SV Require Import lib.Scalar lib.BigSum lib.LoopIR lib.NdArray lib.Gather
-  gen.Gen_block model.Rearrange model.Block proofs.Block proofs.Rearrange.
+  gen.Gen_block model.Rearrange model.Block proofs.Block proofs.Rearrange proofs.Block2D3D.
 Import ListNotations.
 Local Open Scope Z_scope.
 
@@ -83,3 +83,125 @@ Example C09_b2a_example :
                           [1; 3; 3] [1; 7] 1 3 2 3) [] (fun _ => 0))
   = [1; 2; 103; 200; 10300; 20000; 30000].
 Proof. vm_compute. reflexivity. Qed.
+
+(* ---- 2-D and 3-D kernels (proofs/Block2D3D.v) ---- *)
+
+
+Theorem C09_b2a2_overlaps_add :
+  forall (R : StarRing) (input : list Z -> R) ish osh batch Bx By Sx Sy Nx Ny Nyo Nxo (out : list Z -> R) b iy ix,
+    0 < Sx -> 0 < Sy -> shape_at osh (-2) = Nyo -> shape_at osh (-1) = Nxo ->
+    0 <= b < batch -> 0 <= iy < Nyo -> 0 <= ix < Nxo ->
+    exec (k_blocks_to_array2 R input ish osh batch Bx By Sx Sy Nx Ny) [] out [b; iy; ix] =
+    add (out [b; iy; ix])
+        (sumZ Ny (fun ny => sumZ Nx (fun nx => sumZ By (fun by_ => sumZ Bx (fun bx =>
+           if (ny * Sy + by_ =? iy) && (nx * Sx + bx =? ix) then input [b; ny; nx; by_; bx] else zero))))).
+Proof. exact b2a2_exec. Qed.
+
+Theorem C09_b2a2_frame :
+  forall (R : StarRing) (input : list Z -> R) ish osh batch Bx By Sx Sy Nx Ny (out : list Z -> R) o,
+    (forall b iy ix, 0 <= b < batch -> 0 <= iy < shape_at osh (-2) -> 0 <= ix < shape_at osh (-1) -> o <> [b; iy; ix]) ->
+    exec (k_blocks_to_array2 R input ish osh batch Bx By Sx Sy Nx Ny) [] out o = out o.
+Proof. exact b2a2_frame. Qed.
+
+Theorem C09_b2a3_overlaps_add :
+  forall (R : StarRing) (input : list Z -> R) ish osh batch Bx By Bz Sx Sy Sz Nx Ny Nz Nzo Nyo Nxo (out : list Z -> R) b iz iy ix,
+    0 < Sx -> 0 < Sy -> 0 < Sz ->
+    shape_at osh (-3) = Nzo -> shape_at osh (-2) = Nyo -> shape_at osh (-1) = Nxo ->
+    0 <= b < batch -> 0 <= iz < Nzo -> 0 <= iy < Nyo -> 0 <= ix < Nxo ->
+    exec (k_blocks_to_array3 R input ish osh batch Bx By Bz Sx Sy Sz Nx Ny Nz) [] out [b; iz; iy; ix] =
+    add (out [b; iz; iy; ix])
+        (sumZ Nz (fun nz => sumZ Ny (fun ny => sumZ Nx (fun nx =>
+           sumZ Bz (fun bz => sumZ By (fun by_ => sumZ Bx (fun bx =>
+             if (nz * Sz + bz =? iz) && (ny * Sy + by_ =? iy) && (nx * Sx + bx =? ix)
+             then input [b; nz; ny; nx; bz; by_; bx] else zero))))))).
+Proof. exact b2a3_exec. Qed.
+
+Theorem C09_b2a3_frame :
+  forall (R : StarRing) (input : list Z -> R) ish osh batch Bx By Bz Sx Sy Sz Nx Ny Nz (out : list Z -> R) o,
+    (forall b iz iy ix, 0 <= b < batch -> 0 <= iz < shape_at osh (-3) -> 0 <= iy < shape_at osh (-2) ->
+                        0 <= ix < shape_at osh (-1) -> o <> [b; iz; iy; ix]) ->
+    exec (k_blocks_to_array3 R input ish osh batch Bx By Bz Sx Sy Sz Nx Ny Nz) [] out o = out o.
+Proof. exact b2a3_frame. Qed.
+
+Theorem C09_a2b2_window :
+  forall (R : Ops) (input : list Z -> R) ish osh batch Bx By Sx Sy Nx Ny Nyi Nxi (out : list Z -> R) b ny nx by_ bx,
+    shape_at ish (-2) = Nyi -> shape_at ish (-1) = Nxi ->
+    0 <= b < batch -> 0 <= ny < Ny -> 0 <= nx < Nx -> 0 <= by_ < By -> 0 <= bx < Bx ->
+    exec (k_array_to_blocks2 R input ish osh batch Bx By Sx Sy Nx Ny) [] out [b; ny; nx; by_; bx] =
+    if (nx * Sx + bx <? Nxi) && (ny * Sy + by_ <? Nyi)
+    then input [b; ny * Sy + by_; nx * Sx + bx] else out [b; ny; nx; by_; bx].
+Proof. exact a2b2_exec. Qed.
+
+Theorem C09_a2b3_window :
+  forall (R : Ops) (input : list Z -> R) ish osh batch Bx By Bz Sx Sy Sz Nx Ny Nz Nzi Nyi Nxi (out : list Z -> R)
+         b nz ny nx bz by_ bx,
+    shape_at ish (-3) = Nzi -> shape_at ish (-2) = Nyi -> shape_at ish (-1) = Nxi ->
+    0 <= b < batch -> 0 <= nz < Nz -> 0 <= ny < Ny -> 0 <= nx < Nx -> 0 <= bz < Bz -> 0 <= by_ < By -> 0 <= bx < Bx ->
+    exec (k_array_to_blocks3 R input ish osh batch Bx By Bz Sx Sy Sz Nx Ny Nz) [] out [b; nz; ny; nx; bz; by_; bx] =
+    if (nx * Sx + bx <? Nxi) && (ny * Sy + by_ <? Nyi) && (nz * Sz + bz <? Nzi)
+    then input [b; nz * Sz + bz; ny * Sy + by_; nx * Sx + bx] else out [b; nz; ny; nx; bz; by_; bx].
+Proof. exact a2b3_exec. Qed.
+
+Theorem C09_a2b2_frame :
+  forall (R : Ops) (input : list Z -> R) ish osh batch Bx By Sx Sy Nx Ny (out : list Z -> R) o,
+    (forall b ny nx by_ bx, 0 <= b < batch -> 0 <= ny < Ny -> 0 <= nx < Nx -> 0 <= by_ < By -> 0 <= bx < Bx ->
+                            o <> [b; ny; nx; by_; bx]) ->
+    exec (k_array_to_blocks2 R input ish osh batch Bx By Sx Sy Nx Ny) [] out o = out o.
+Proof. exact a2b2_frame. Qed.
+
+Theorem C09_a2b3_frame :
+  forall (R : Ops) (input : list Z -> R) ish osh batch Bx By Bz Sx Sy Sz Nx Ny Nz (out : list Z -> R) o,
+    (forall b nz ny nx bz by_ bx, 0 <= b < batch -> 0 <= nz < Nz -> 0 <= ny < Ny -> 0 <= nx < Nx ->
+                            0 <= bz < Bz -> 0 <= by_ < By -> 0 <= bx < Bx -> o <> [b; nz; ny; nx; bz; by_; bx]) ->
+    exec (k_array_to_blocks3 R input ish osh batch Bx By Bz Sx Sy Sz Nx Ny Nz) [] out o = out o.
+Proof. exact a2b3_frame. Qed.
+
+Theorem C09_a2b2_num_blks_exact :
+  forall (R : Ops) (input : list Z -> R) ish osh batch Bx By Sx Sy Nyi Nxi (out : list Z -> R) b ny nx by_ bx,
+    0 < Sx -> 0 < Sy -> shape_at ish (-2) = Nyi -> shape_at ish (-1) = Nxi ->
+    0 <= b < batch -> 0 <= ny < (Nyi - By + Sy) / Sy -> 0 <= nx < (Nxi - Bx + Sx) / Sx -> 0 <= by_ < By -> 0 <= bx < Bx ->
+    exec (k_array_to_blocks2 R input ish osh batch Bx By Sx Sy ((Nxi - Bx + Sx) / Sx) ((Nyi - By + Sy) / Sy)) [] out
+         [b; ny; nx; by_; bx] = input [b; ny * Sy + by_; nx * Sx + bx].
+Proof. exact a2b2_exec_num_blks. Qed.
+
+Theorem C09_a2b3_num_blks_exact :
+  forall (R : Ops) (input : list Z -> R) ish osh batch Bx By Bz Sx Sy Sz Nzi Nyi Nxi (out : list Z -> R) b nz ny nx bz by_ bx,
+    0 < Sx -> 0 < Sy -> 0 < Sz -> shape_at ish (-3) = Nzi -> shape_at ish (-2) = Nyi -> shape_at ish (-1) = Nxi ->
+    0 <= b < batch -> 0 <= nz < (Nzi - Bz + Sz) / Sz -> 0 <= ny < (Nyi - By + Sy) / Sy -> 0 <= nx < (Nxi - Bx + Sx) / Sx ->
+    0 <= bz < Bz -> 0 <= by_ < By -> 0 <= bx < Bx ->
+    exec (k_array_to_blocks3 R input ish osh batch Bx By Bz Sx Sy Sz
+            ((Nxi - Bx + Sx) / Sx) ((Nyi - By + Sy) / Sy) ((Nzi - Bz + Sz) / Sz)) [] out
+         [b; nz; ny; nx; bz; by_; bx] = input [b; nz * Sz + bz; ny * Sy + by_; nx * Sx + bx].
+Proof. exact a2b3_exec_num_blks. Qed.
+
+Theorem C09_a2b2_is_documented_closed_form :
+  forall (R : Ops) (input : list Z -> R) osh batch Bx By Sx Sy Nx Ny Nyi Nxi b ny nx by_ bx,
+    0 <= Sx -> 0 <= Sy -> 0 <= b < batch -> 0 <= ny < Ny -> 0 <= nx < Nx -> 0 <= by_ < By -> 0 <= bx < Bx ->
+    exec (k_array_to_blocks2 R input [batch; Nyi; Nxi] osh batch Bx By Sx Sy Nx Ny) [] (fun _ => zero) [b; ny; nx; by_; bx] =
+    a2b_spec [batch; Nyi; Nxi] [By; Bx] [Sy; Sx] input [b; ny; nx; by_; bx].
+Proof. exact a2b2_matches_spec. Qed.
+
+Theorem C09_a2b3_is_documented_closed_form :
+  forall (R : Ops) (input : list Z -> R) osh batch Bx By Bz Sx Sy Sz Nx Ny Nz Nzi Nyi Nxi b nz ny nx bz by_ bx,
+    0 <= Sx -> 0 <= Sy -> 0 <= Sz -> 0 <= b < batch -> 0 <= nz < Nz -> 0 <= ny < Ny -> 0 <= nx < Nx ->
+    0 <= bz < Bz -> 0 <= by_ < By -> 0 <= bx < Bx ->
+    exec (k_array_to_blocks3 R input [batch; Nzi; Nyi; Nxi] osh batch Bx By Bz Sx Sy Sz Nx Ny Nz) [] (fun _ => zero)
+         [b; nz; ny; nx; bz; by_; bx] =
+    a2b_spec [batch; Nzi; Nyi; Nxi] [Bz; By; Bx] [Sz; Sy; Sx] input [b; nz; ny; nx; bz; by_; bx].
+Proof. exact a2b3_matches_spec. Qed.
+
+Theorem C09_b2a2_is_documented_closed_form :
+  forall (R : StarRing) (input : list Z -> R) ish batch Bx By Sx Sy Nx Ny Nyo Nxo b iy ix,
+    0 < Sx -> 0 < Sy -> 0 <= b < batch -> 0 <= iy < Nyo -> 0 <= ix < Nxo ->
+    exec (k_blocks_to_array2 R input ish [batch; Nyo; Nxo] batch Bx By Sx Sy Nx Ny) [] (fun _ => zero) [b; iy; ix] =
+    b2a_spec [Ny; Nx] [batch; Nyo; Nxo] [By; Bx] [Sy; Sx] input [b; iy; ix].
+Proof. exact b2a2_matches_spec. Qed.
+
+Theorem C09_b2a3_is_documented_closed_form :
+  forall (R : StarRing) (input : list Z -> R) ish batch Bx By Bz Sx Sy Sz Nx Ny Nz Nzo Nyo Nxo b iz iy ix,
+    0 < Sx -> 0 < Sy -> 0 < Sz -> 0 <= b < batch -> 0 <= iz < Nzo -> 0 <= iy < Nyo -> 0 <= ix < Nxo ->
+    exec (k_blocks_to_array3 R input ish [batch; Nzo; Nyo; Nxo] batch Bx By Bz Sx Sy Sz Nx Ny Nz) [] (fun _ => zero)
+         [b; iz; iy; ix] =
+    b2a_spec [Nz; Ny; Nx] [batch; Nzo; Nyo; Nxo] [Bz; By; Bx] [Sz; Sy; Sx] input [b; iz; iy; ix].
+Proof. exact b2a3_matches_spec. Qed.
+Print Assumptions C09_b2a3_is_documented_closed_form.
